@@ -190,7 +190,7 @@ extern "C" void harness_c26_ops()
     long B = verif_param("B", 2);
     Leaf a = leaf("a", B);
     check_value(a.x, a.m, "a leaf has its own entries");
-    int op = (int)verif_choice("op", 6);
+    int op = (int)verif_choice("op", 7);
     M r;
     RCP<const MatrixExpr> x;
     bool defined = true, threw = false;
@@ -222,6 +222,14 @@ extern "C" void harness_c26_ops()
         verif_assert(threw == !defined, "a dimension mismatch is rejected, matching dimensions are accepted");
         if (!threw)
             check_value(x, r, "entry of A op B equals the dense computation");
+    } else if (op == 6) { // scalar multiple through matrix_mul({k, A}), k a symbolic integer
+        RCP<const Integer> k = sym_integer("k", -B, B);
+        r.r = a.m.r;
+        r.c = a.m.c;
+        for (int i = 0; i < 2; i++)
+            for (int j = 0; j < 2; j++)
+                r.e[i][j] = k->as_integer_class() * a.m.e[i][j];
+        check_value(matrix_mul({k, a.x}), r, "entry of k*A");
     } else if (op == 3 || op == 4) {
         r.r = a.m.c;
         r.c = a.m.r;
